@@ -201,6 +201,8 @@ def worker_main(args):
         runs = [(mod.strategy(args.tier), budget["examples"], 0)]
         if hasattr(mod, "hard_strategy") and budget.get("hard_examples", 0) > 0:
             runs.append((mod.hard_strategy(args.tier), budget["hard_examples"], 500))
+        if os.environ.get("VERIF_ONLY_HARD") == "1":      # development aid: the guided run alone
+            runs = runs[1:]
         for strat, n, off in runs:
             per = max(1, (n + args.nshards - 1) // args.nshards)
             if n <= 0:
